@@ -100,8 +100,51 @@ func glueDiverge(a, b func()) string {
 // counter and tail handling) on the accelerated path, under the block/short-circuit/index trace monitor: for fixed
 // lengths and a fixed verdict, every key - including keys solved so that single round keys are zero or all-ones - and
 // every data pattern must produce the identical trace.
+// glueColdEntries: the trace of the very first cipher of a process (construction, one block, one Seal), one entry per
+// key; the child records it before anything else has used package sm4.
+func glueColdEntries() []vx.ColdEntry {
+	keys := map[string][]byte{"std": keyByName("std"), "zero": make([]byte, 16), "ones": keyByName("ones"), "seeded": vx.Fill("gluecoldkey", 16)}
+	sk, sn := sm4ref.SpecialScheduleKeys(false)
+	for i := range sk {
+		if sn[i] == "rk0=0" || sn[i] == "rk31=0" || sn[i] == "rk0..3=0" {
+			keys[sn[i]] = sk[i]
+		}
+	}
+	var names []string
+	for k := range keys {
+		names = append(names, k)
+	}
+	sort.Strings(names)
+	var es []vx.ColdEntry
+	for _, kn := range names {
+		k := keys[kn]
+		es = append(es, vx.ColdEntry{Name: "first-cipher:" + kn, Fn: func() string {
+			kb, ib, ob := make([]byte, 16), make([]byte, 16), make([]byte, 16)
+			nb, pb, outb := make([]byte, 12), make([]byte, 33), make([]byte, 0, 64)
+			copy(kb, k)
+			trace.Start(true)
+			b, err := sm4.NewCipher(kb)
+			if err != nil {
+				return err.Error()
+			}
+			b.Encrypt(ob, ib)
+			if g, ok := b.(gcmAble); ok {
+				a, _ := g.NewGCM(12, 16)
+				a.Seal(outb, nb, pb, nil)
+			}
+			res := trace.Stop()
+			return fmt.Sprintf("%x:%d", res.Hash, res.Events)
+		}})
+	}
+	return es
+}
+
 func TestVX_C09_Glue(t *testing.T) {
-	r := vx.Begin("C09", "glue-trace", "Go glue of the accelerated path under the trace monitor (every basic block, short-circuit operand and index / slice-bound value of package sm4's Go sources): groups = NewCipher+Encrypt+Decrypt; NewGCM+Seal, Open of an authentic message and Open of a forged one for (plaintext, aad, nonce, tag) lengths in {0,1,16,17,64,300}x{0,5,16}x{12,16}x{16,12}; within a group the key ranges over {standard, zero, ones, seeded x4, keys solved for rk[i]=0 / 0xffffffff at every i and zero / all-one windows} and the data over {zero, ones, seeded} plaintext, nonce and aad; all traces of a group must be identical")
+	coldEntries := glueColdEntries()
+	if vx.ColdChild(coldEntries) {
+		return
+	}
+	r := vx.Begin("C09", "glue-trace", "Go glue of the accelerated path under the trace monitor (every basic block, short-circuit operand and index / slice-bound value of package sm4's Go sources): groups = NewCipher+Encrypt+Decrypt; NewGCM+Seal, Open of an authentic message and Open of a forged one for (plaintext, aad, nonce, tag) lengths in {0,1,16,17,64,300}x{0,5,16}x{12,16}x{16,12}; within a group the key ranges over {standard, zero, ones, seeded x4, keys solved for rk[i]=0 / 0xffffffff at every i and zero / all-one windows} and the data over {zero, ones, seeded} plaintext, nonce and aad; all traces of a group must be identical; plus the first cipher of a process (one fresh process per key: construction, one block, one Seal) - the traces of all keys must be equal")
 	defer r.End()
 	selfCheck()
 	if !glueLoad() {
@@ -112,6 +155,26 @@ func TestVX_C09_Glue(t *testing.T) {
 	if _, ok := probe.(gcmAble); !ok {
 		r.NotExhaustive("the accelerated path is not selected on this CPU: the property makes no claim")
 		return
+	}
+	// ---- the first cipher of a process: whatever is done lazily on first use (self-tests, table construction) must not
+	// depend on that first key either. One fresh process per key; all traces equal.
+	if vx.MineIdx(0) {
+		first := ""
+		for i, e := range coldEntries {
+			r.Eval(1)
+			res, _, fail := vx.ColdRun("TestVX_C09_Glue", e.Name, 1)
+			cs := glueCase{"first-cipher-of-the-process", e.Name, coldEntries[0].Name}
+			if fail != "" || len(res) != 1 {
+				r.Violation("glue:cold:crash", fmt.Sprintf("%s as the first use of the library in a fresh process: %s", e.Name, fail), cs)
+				continue
+			}
+			if i == 0 {
+				first = res[0]
+			} else if res[0] != first {
+				r.Violation("glue:cold:trace-differs", fmt.Sprintf("the first cipher of a process: the Go code took a different path / touched different indexes for %s (trace %s) than for %s (trace %s) - work done lazily on first use depends on the key", e.Name, res[0], coldEntries[0].Name, first), cs)
+			}
+		}
+		r.Shape("first-cipher-of-the-process")
 	}
 	keys := map[string][]byte{"std": keyByName("std"), "zero": make([]byte, 16), "ones": keyByName("ones")}
 	for i := 0; i < 4; i++ {
